@@ -118,7 +118,7 @@ func genFrames(r *vh.Rand, w *vh.LineWriter, next int, tier string) int {
 	nsamples := 8
 	bursts := 250
 	if tier == "thorough" {
-		nh, nsamples, bursts = 20000, 60, 3000
+		nh, nsamples, bursts = 8000, 30, 1500
 	}
 	for i := 0; i < nh; i++ {
 		emit("HDR %d %d %d", methods[r.Intn(len(methods))], r.BiasedU64(), uint32(r.BiasedU64()))
@@ -157,7 +157,7 @@ func genFrames(r *vh.Rand, w *vh.LineWriter, next int, tier string) int {
 	// crc field as "not checksummed" delivers corruptions of exactly these.
 	nzero := 6
 	if tier == "thorough" {
-		nzero = 40
+		nzero = 20
 	}
 	for k := 0; k < nsamples+nzero; k++ {
 		n := lens[k%len(lens)]
